@@ -28,6 +28,7 @@ package valid
 
 //@ func ToStr
 //@   pure
+//@   at call Sprintf#0 reached_when [C04 C05 C17 C20 tostr.default] src != nil && itag(src) != tagof("string") && itag(src) != tagof("[]byte") && itag(src) != tagof("int") && itag(src) != tagof("int8") && itag(src) != tagof("int16") && itag(src) != tagof("int32") && itag(src) != tagof("int64") && itag(src) != tagof("uint") && itag(src) != tagof("uint8") && itag(src) != tagof("uint16") && itag(src) != tagof("uint32") && itag(src) != tagof("uint64") && itag(src) != tagof("float32") && itag(src) != tagof("float64") && itag(src) != tagof("bool")
 //@   ensures [C05 tostr.nil] src == nil ==> result == ""
 //@   ensures [C05 tostr.string] itag(src) == tagof("string") ==> result == unbox("String", src)
 //@   ensures [C05 C20 tostr.int] itag(src) == tagof("int") ==> result == decInt(unbox("Int", src))
@@ -961,6 +962,7 @@ package valid
 //@   ensures [C13 fn.unknown.err] result1 != nil ==> safeErr(result1)
 
 //@ func (*VUrl).validate
+//@   at call Index#0 assert [C01 C03 C05 C17 C18 url.decoded] arg0 == queryUnescape(value$0) && arg1 == "?"
 //@   at call CommonValidFn#0 assert [C02 C04 url.names] arg2 == "" && arg3 == key
 //@   at call GetJoinValidErrStr#* assert [C02 C04 url.required.names] arg0 == "" && arg1 == key
 //@   at call Split#0 assert [C01 C03 C17 C18 url.query] s == ite(indexof(decUrl, "?") == -1, "", decUrl[indexof(decUrl, "?")+1:]) && sep == "&"
